@@ -158,6 +158,8 @@ bool FeatureChecker::isRateDisallowedInSymbolic(const expression_t& e)
         }
         return false;
     }
+    if (e.get_kind() == Constants::FORALL)  // the quantified invariant is the last operand
+        return isRateDisallowedInSymbolic(e.get(e.get_size() - 1));
     return false;
 }
 
